@@ -54,6 +54,8 @@ func c04Alphabet() []areq {
 	}
 	al = append(al, R(wire.Tclunk, u(0)), R(wire.Tclunk, u(7)), R(wire.Tstatfs, u(1)), R(wire.Tlock, u(2), u(1), u(0), u(0), u(8), u(3), "c"), R(wire.Tread, u(7), u(0), u(1)),
 		R(wire.Tread, u(2), u(0), u(0)), R(wire.Tread, u(2), u(0), u(4<<20+1)), R(wire.Tread, u(2), u(4), u(4)),
+		// offsets at the end of the range (fid 1 and 2 may be xattr fids by then)
+		R(wire.Tread, u(1), u(1<<64-1), u(1)), R(wire.Tread, u(2), u(1<<64-1), u(8)), R(wire.Tread, u(2), u(1<<63), u(8)), R(wire.Twrite, u(2), u(1<<64-1), []byte("z")),
 		R(wire.Tlcreate, u(1), "new", u(2), u(0644), u(0)), R(wire.Tucreate, u(1), "new2", u(1), u(0644), u(0), u(0)), R(wire.Tlcreate, u(2), "x", u(2), u(0644), u(0)),
 		R(wire.Tlcreate, u(1), "new3", u(0x8000), u(0644), u(0)), R(wire.Tucreate, u(1), "new4", u(0x201), u(0644), u(0), u(0)),
 		R(wire.Tmkdir, u(1), "nd", u(0755), u(0)), R(wire.Tsymlink, u(1), "ns", "tgt", u(0)), R(wire.Tmknod, u(1), "nn", u(0010644), u(0), u(0), u(0)), R(wire.Tlink, u(1), u(2), "ln"),
@@ -384,7 +386,11 @@ func (g *seqGen) next() (conn int, a areq) {
 	case k < 42:
 		return conn, R(wire.Tremove, f)
 	case k < 48:
-		return conn, R(wire.Tread, f, u(uint64(r.Intn(12))), u(uint64(r.Intn(16))))
+		off := uint64(r.Intn(12))
+		if r.Chance(10) {
+			off = ev.Pick(r, []uint64{1<<64 - 1, 1 << 63, 1<<32 - 1, 1<<64 - 8})
+		}
+		return conn, R(wire.Tread, f, u(off), u(uint64(r.Intn(16))))
 	case k < 54:
 		return conn, R(wire.Twrite, f, u(uint64(r.Intn(6))), []byte("wxyz")[:r.Intn(5)])
 	case k < 58:
